@@ -82,13 +82,16 @@ def autodiff_errors(spec, obj, x, cond=None, tol=1e-7):
         return errs
     if not abs(ld - ref) <= tol * max(1.0, abs(ref)):
         errs.append(f"transform_and_log_det log_det = {ld!r} but ln|det jacobian(transform)| = {float(ref)!r} at x = {np.ravel(x).tolist()}")
-    # inverse at the corresponding point
+    # inverse law: the log-det returned with the inverse = minus the forward log-det AT THE INVERSE IMAGE x2 (evaluated there,
+    # not at x: x2 equals x only up to the map's conditioning, and the log-det may vary quickly)
     try:
         x2, ldi = obj.inverse_and_log_det(jnp.asarray(y), *args)
         if np.ndim(ldi) != 0:
             errs.append(f"inverse log_det has shape {np.shape(ldi)}")
-        elif np.all(np.isfinite(np.asarray(x2))) and np.allclose(np.asarray(x2), x, rtol=1e-6, atol=1e-6) and not abs(float(ldi) + ld) <= 1e-6 * max(1.0, abs(ld)):
-            errs.append(f"inverse_and_log_det log_det = {float(ldi)!r} is not minus the forward log_det {ld!r} at the corresponding point")
+        elif np.all(np.isfinite(np.asarray(x2))) and np.isfinite(float(ldi)):
+            y2, ld2 = obj.transform_and_log_det(x2, *args)
+            if np.isfinite(float(ld2)) and np.allclose(np.asarray(y2), y, rtol=1e-6, atol=1e-6) and not abs(float(ldi) + float(ld2)) <= 1e-6 * max(1.0, abs(float(ld2))):
+                errs.append(f"inverse_and_log_det log_det = {float(ldi)!r} is not minus the forward log_det {float(ld2)!r} at the corresponding point {np.ravel(np.asarray(x2)).tolist()}")
     except NotImplementedError:
         pass
     return errs
